@@ -55,15 +55,32 @@ def findIdx? {α : Type} (p : α → Bool) (l : List α) : Option Nat :=
 
 /- ## C04.index -/
 
-def handleIndex (script outcome dump ranks obs enum after2 : String) : Verdict :=
+/-- the per-branch oracle on one observation of the indexes (ranks, branch records) against the tree:
+    `none` = all right, `some reason` otherwise -/
+def judgeObs (t : T) (tips : List String) (rk : List String) (os : List Obs) : Option String :=
+  let sp := t.splits
+  if rk != sortNames tips then some "tip ranks are not the sorted tip names"
+  else if os.length != sp.length then some "number of branch records"
+  else
+    match findIdx? (fun (so : SplitE × Obs) => !(branchOK tips so.1.below so.2.bits so.2.nl so.2.nr so.2.td)) (sp.zip os) with
+    | some i => some ("branch " ++ toString i ++ ": recorded bitset/counts/depth differ from the split of the branch")
+    | none =>
+      let vs := (sp.map fun s => memVec tips s.below).zip (os.map (·.hc))
+      if tips.length ≤ 80 && (vs.any fun (va, ha) => vs.any fun (vb, hb) => sameSplitV va vb && ha != hb) then
+        some "two branches of the tree define the same split and have different hash codes"
+      else none
+
+def handleIndex (script outcome dump ranks obs enum after2 rk0 obs0 : String) : Verdict :=
   if outcome == "malformed" then
-    -- `dump` = the heap problems, `ranks` = the outcome of every step of the edit script
-    match parseStrList ranks with
-    | some log =>
-      if log.any (fun r => r != "ok" && r != "skip" && r != "nopath") then
-        ⟨.pass, ["skip-malformed-after-failed-edit"], ""⟩     -- an edit that returned an error: C03's business
-      else ⟨.oracle, ["malformed-after-successful-edits"], "the heap is malformed after edits that all succeeded: " ++ dump⟩
-    | none => bad "C04.index malformed log"
+    -- `dump` = the heap problems, `ranks` = the outcome of every step, `obs` = the first step after which
+    -- the heap was malformed
+    match parseStrList ranks, obs.toInt? with
+    | some log, some fb =>
+      let res := if fb < 0 then "?" else log.getD fb.toNat "?"
+      if res == "err" || res.startsWith "panic" then
+        ⟨.pass, ["skip-malformed-by-failed-edit"], ""⟩     -- the step that broke the heap returned an error: C03's business
+      else ⟨.oracle, ["malformed-by-successful-edit"], "step " ++ toString fb ++ " reported success and left the heap malformed: " ++ dump⟩
+    | _, _ => bad "C04.index malformed log"
   else
   match T.undump dump, parseStrList script with
   | some t, some sc =>
@@ -86,6 +103,27 @@ def handleIndex (script outcome dump ranks obs enum after2 : String) : Verdict :
     else if outcome != "ok" then ⟨.oracle, tags, "ReinitIndexes failed on a tree with unique tip names: " ++ outcome⟩
     else if after2 != dump then ⟨.oracle, tags, "re-indexing changed the tree itself"⟩
     else
+    -- the indexes as the last edit left them by its own recompute (before the explicit re-index)
+    let own : Option Verdict :=
+      if obs0 == "" then none else
+      let tags := "own-recompute" :: tags
+      match parseStrList rk0, (splitTerm ";" obs0).mapM parseObs with
+      | some rk, some os =>
+        (match judgeObs t tips rk os with
+         | some why => some ⟨.oracle, tags, "indexes left by the edit's own recompute: " ++ why⟩
+         | none =>
+           match model with
+           | .ok (_, mi) =>
+             if mi.length == os.length && (mi.zip os).all (fun (mo : EdgeIdx × Obs) => mo.1.bits == mo.2.bits &&
+                 (mo.1.nleft : Int) == mo.2.nl && (mo.1.nright : Int) == mo.2.nr &&
+                 mo.1.topoDepth.map (fun (x : Nat) => (x : Int)) == mo.2.td && mo.1.hashCode == mo.2.hc) then none
+             else some ⟨.tie, tags, "model index differs from the indexes left by the edit's own recompute"⟩
+           | .err _ => none)
+      | _, _ => some ⟨.oracle, tags, "indexes left by the edit's own recompute are unreadable (nil / other width bitsets, ranks): " ++ String.ofList (obs0.toList.take 60)⟩
+    match own with
+    | some v => v
+    | none =>
+    let tags := tags ++ tagIf (obs0 != "") "own-recompute"
     match parseStrList ranks, (splitTerm ";" obs).mapM parseObs, (splitTerm ";" enum).mapM parseIntList with
     | some rk, some os, some [eAll, eInt, eTip] =>
       let sp := t.splits
@@ -545,7 +583,7 @@ def handleQuartets (dump sp wi outcome ql ix : String) : Verdict :=
 
 def handle (op : String) (f : List String) : Verdict :=
   match op, f with
-  | "index", [_, script, outcome, dump, ranks, obs, enum, after2] => handleIndex script outcome dump ranks obs enum after2
+  | "index", [_, script, outcome, dump, ranks, obs, enum, after2, rk0, obs0] => handleIndex script outcome dump ranks obs enum after2 rk0 obs0
   | "pairs", [d1, d2, outcome, hc1, hc2, heq, sb, fe, ce] => handlePairs d1 d2 outcome hc1 hc2 heq sb fe ce
   | "hm", [cap, lf, mode, ops, replies] => handleHM cap lf mode ops replies
   | "ei", [dumps, cap, lf, ops, outcome, replies] => handleEI dumps cap lf ops outcome replies
